@@ -116,6 +116,7 @@ type scriptSrc struct {
 	eofWithData bool
 	wrapEOF     bool // the injected error wraps io.ErrUnexpectedEOF (it is still not an end of stream)
 	wrapPlain   bool // … or io.EOF itself
+	zeroReads   bool // every other call returns (0, nil) first: legal for an io.Reader, and nothing may depend on it
 }
 
 // wrappedEOF is the injected failure in a form that `errors.Is(err, io.ErrUnexpectedEOF)` accepts: a
@@ -162,6 +163,9 @@ func (s *scriptSrc) Read(p []byte) (int, error) {
 		return 0, errInjected
 	}
 	if len(p) == 0 {
+		return 0, nil
+	}
+	if s.zeroReads && k%2 == 0 {
 		return 0, nil
 	}
 	rem := len(s.data) - s.rpos
@@ -499,7 +503,7 @@ func implW(f []string, o *oracleSink) string {
 			case "rf":
 				d := loadBlob(p[1])
 				fa, wr := srcFail(p[3])
-				src := &scriptSrc{data: d, chunk: atoi(p[2]), failAt: fa, wrapEOF: wr == 1, wrapPlain: wr == 2, eofWithData: p[4] == "1"}
+				src := &scriptSrc{data: d, chunk: atoi(p[2]), failAt: fa, wrapEOF: wr == 1, wrapPlain: wr == 2, eofWithData: p[4] == "1" || p[4] == "3", zeroReads: fa < 0 && (p[4] == "2" || p[4] == "3")}
 				n, err := zw.ReadFrom(src)
 				tr.usedRF = true
 				tr.flushed = true // ReadFrom emits its last, short, chunk as a block of its own, as a Flush does
@@ -642,7 +646,7 @@ func implR(f []string, o *oracleSink) string {
 	data := loadBlob(blobRef)
 	mk := func(d []byte) *scriptSrc {
 		fa, wr := srcFail(f[4])
-		return &scriptSrc{data: d, chunk: atoi(f[3]), failAt: fa, wrapEOF: wr == 1, wrapPlain: wr == 2, eofWithData: f[5] == "1"}
+		return &scriptSrc{data: d, chunk: atoi(f[3]), failAt: fa, wrapEOF: wr == 1, wrapPlain: wr == 2, eofWithData: f[5] == "1" || f[5] == "3", zeroReads: fa < 0 && (f[5] == "2" || f[5] == "3")}
 	}
 	src := mk(data)
 	zr := lz4.NewReader(src)
